@@ -227,6 +227,10 @@ def render_scope(S, rng, lines):
         spec.append("private")  # after the declarations: every entity above carries an access attribute or is named in an access statement
     # types must be declared before they are referenced: declarations first, then slots
     render_slots(S, spec, body, rng)
+    if S.kind != "module" and rng.random() < 0.4:
+        # a BLOCK construct is a child scope: a type it defines under a reused name is invisible to the procedure's own declarations
+        bn = cs(rng, rng.choice(POOL))
+        body += ["block", f"type :: {bn}", "integer :: blk", f"end type {bn}", f"type({bn}) :: blv", "blv%blk = 1", "end block"]
     if S.kind == "module":
         lines.append(f"module {S.name}")
     else:
